@@ -9,8 +9,8 @@ showing the hypothesis is not idle); when every decoded batch is a rectangular G
 int64 time column no flush fails and rows are conserved (C04_core_no_flush_failure_guarded,
 C04_core_rows_conserved_guarded, C04_rows_conserved_guarded); a refused request stores nothing
 (C04_*front_rejected_stores_nothing); the former crash witnesses are refused or stored
-(C04_old_crash_witnesses_fixed).  Still refuted: C04_rejected_stores_nothing_refuted,
-C04_accepted_rows_lost_refuted.
+(C04_old_crash_witnesses_fixed), and so are the sequences that lost an accepted row before ac0d5a8
+(C04_lost_row_witnesses_fixed).  Still refuted: C04_rejected_stores_nothing_refuted.
 
 Tie: the REAL fiber app of api.NewServer with the REAL handlers, a REAL ArrowBuffer and a
 temporary LocalBackend run request SEQUENCES (+ background FlushAll) in CHILD processes; status
@@ -41,7 +41,7 @@ THEOREMS = [("Arc.NoCrash.Props", t) for t in (
     "C04_no_panic", "C04_core_no_panic", "C04_recover_is_what_saves_the_process",
     "C04_core_no_flush_failure_guarded", "C04_core_rows_conserved_guarded", "C04_rows_conserved_guarded",
     "C04_core_front_rejected_stores_nothing", "C04_front_rejected_stores_nothing", "C04_old_crash_witnesses_fixed",
-    "C04_rejected_stores_nothing_refuted", "C04_accepted_rows_lost_refuted", "C04_decoder_panic_recovered")]
+    "C04_rejected_stores_nothing_refuted", "C04_lost_row_witnesses_fixed", "C04_decoder_panic_recovered")]
 TIE_NAME = ("C04 correspondence (api.NewServer app + MsgPackHandler/LineProtocolHandler + ingest.ArrowBuffer in child "
             "processes vs Arc.NoCrash.Model.run_server)")
 
@@ -52,7 +52,11 @@ REWRITES = {"internal/ingest/arrow_writer.go": [
      "\tcase b.flushQueue <- task:\n\t\tb.queueDepth.Add(1)\n\t\tVerifNoCrashEnq.Add(1)\n", 1),
     ("\t\t\tb.flushRecordsAsync(task.ctx, task.bufferKey, task.database, task.measurement, task.records, task.recordCount)\n",
      "\t\t\tb.flushRecordsAsync(task.ctx, task.bufferKey, task.database, task.measurement, task.records, task.recordCount)\n"
-     "\t\t\tVerifNoCrashDone.Add(1)\n", 1)]}
+     "\t\t\tVerifNoCrashDone.Add(1)\n", 1),
+    # fault injection point: a panic inside the merge of a flush (exercises the recover of commit 763beab)
+    ("func (b *ArrowBuffer) mergeBatches(batches []interface{}) (*TypedColumnBatch, error) {\n",
+     "func (b *ArrowBuffer) mergeBatches(batches []interface{}) (*TypedColumnBatch, error) {\n"
+     "\tif VerifNoCrashPanic.Load() {\n\t\tpanic(\"verif: injected panic in mergeBatches\")\n\t}\n", 1)]}
 
 T0 = 1700000000000000            # microseconds; 2023-11-14T22:13:20Z
 HOUR = 3600000000
@@ -96,6 +100,8 @@ def ev_lp(body, db=None, prec="us", enc=""):
 def ev_to_step(e, rng=None):
     if e["k"] == "flush":
         return {"op": "flush"}
+    if e["k"] == "inject":
+        return {"op": "inject", "on": bool(e["on"])}
     if e["k"] == "mp":
         return {"op": "req", "path": "/api/v1/write/msgpack", "db": e["db"], "ctype": "application/msgpack",
                 "body": b64(mp.encode(e["ast"], rng)), "enc": e.get("enc", "")}
@@ -561,10 +567,9 @@ def witness_cases():
         ev_lp("cpu Z=1.5,a=1i,q:str\\,a=\"x\" %d\n" % T0), ev_lp("cpu Z:f64\\,a:i64\\,q=\"x\",a=\"y\" %d\n" % (T0 + 1)), FLUSH])
     # (was: handler-side flush panic) the first request is refused now
     add("empty-name-then-schema-change", [ev_mp(cp("cpu", [tt(), ("", A(I(1), I(2)))])), ev_mp(cp("cpu", [tt(), ("w", A(I(1), I(2)))])), FLUSH])
-    # STILL open: rowsToColumnar's "_value" rename collides with a tag of that name -> a column with 2 entries per
-    # row; accepted (204), the flush fails (array.NewRecord panics - recovered since 763beab - or the Parquet writer
-    # refuses the columns) and the row is lost.  Several copies with several flushes each: without the recover
-    # every one of these flushes kills the process with probability ~1/2 (Go map order of the schema fields).
+    # lost its row before ac0d5a8: rowsToColumnar's "_value" rename collided with a tag of that name -> a column with
+    # 2 entries per row, the flush failed (array.NewRecord panic - recovered - or the Parquet writer).  Now stored.
+    # (No request reaches a flush panic any more; the recover of 763beab is exercised by injection_cases().)
     def suffix_row(m, ts):
         return row_rec(m, ts, [("a", S("x"))], [("a", S("t")), ("a_value", S("u"))], host="")
     add("suffix-collision", [ev_mp(suffix_row("cpu", T0)), FLUSH])
@@ -572,6 +577,7 @@ def witness_cases():
         m = "sfx%d" % i
         add("suffix-collision-%d" % i, [ev_mp(suffix_row(m, T0 + i)), FLUSH, ev_mp(suffix_row(m, T0 + 10 + i)), FLUSH,
                                          ev_mp(suffix_row(m, T0 + 20 + i)), FLUSH], max_rows=BIG if i % 2 else 1)
+    add("suffix-chain", [ev_mp(row_rec("cpu", T0, [("a", S("x")), ("a_value", I(7))], [("a", S("t")), ("a_value", S("u"))], host="")), FLUSH])
     add("suffix-collision-unsorted", [ev_mp(M(("batch", A(suffix_row("cpu", T0 + 5), suffix_row("cpu", T0))))), FLUSH])
     # multi-hour flushes whose FIRST row lies in the epoch hour (hour bucket 0) or just before it
     ep = lambda m, ts, vs: M(("m", S(m)), ("columns", M(("time", A(*[I(x) for x in ts])), ("v", A(*[I(x) for x in vs])))))
@@ -696,6 +702,29 @@ def alloc_witness():
     return {"family": "witness:bin-length-allocation", "max_rows": BIG, "typed": None, "events": evs}
 
 
+def injection_cases():
+    """implementation-only: a panic injected into mergeBatches while a flush runs (background FlushAll, flush worker,
+    handler-side schema-change flush).  On the code as it is the flush fails, the process lives, later writes are
+    stored - what Core.v's [recover_flush := true] says.  Expected observation per case: (statuses, rows)."""
+    good = lambda m, v, t: mp.encode(M(("m", S(m)), ("columns", M(("time", A(I(t, "i64"), I(t + 1, "i64"))), (v, A(I(1), I(2)))))))
+    req = lambda body: {"k": "raw", "path": "/api/v1/write/msgpack", "db": None, "ctype": "application/msgpack", "body": body, "enc": "", "kind": "mp"}
+    on, off = {"k": "inject", "on": True}, {"k": "inject", "on": False}
+    out = []
+    # background flush
+    out.append(({"family": "inject:background-flush", "max_rows": BIG, "typed": None,
+                 "events": [req(good("cpu", "v", T0)), on, FLUSH, off, req(good("cpu", "v", T0 + 10)), FLUSH]},
+                [204, 0, 1, 0, 204, 0], {"default/cpu": 2}))
+    # flush worker (size trigger)
+    out.append(({"family": "inject:flush-worker", "max_rows": 2, "typed": None,
+                 "events": [on, req(good("cpu", "v", T0)), off, req(good("cpu", "v", T0 + 10)), FLUSH]},
+                [0, 204, 0, 204, 0], {"default/cpu": 2}))
+    # handler-side schema-change flush: recovered, the write goes on
+    out.append(({"family": "inject:schema-change-flush", "max_rows": BIG, "typed": None,
+                 "events": [req(good("cpu", "v", T0)), on, req(good("cpu", "w", T0 + 10)), off, FLUSH]},
+                [204, 0, 204, 0, 0], {"default/cpu": 2}))
+    return out
+
+
 def declares_big_bin(body):
     """signature of the allocation finding: a bin32 header (0xc6) declaring >= 32 MB somewhere in the body"""
     i = body.find(b"\xc6")
@@ -804,8 +833,7 @@ def oracle_failure_signature(case, o, verdict, agrees):
     if o["died"] or not agrees:
         return None
     if o.get("written", 0) != o.get("buffered", 0):
-        # accepted rows that were never written: only the columns-of-different-lengths class (8)
-        return "row-format-value-suffix-collision-loses-rows" if verdict[2] & 8 else None
+        return None            # accepted rows that were never written: no listed finding any more
     return "partial-write-of-rejected-multi-record-request"
 
 
@@ -858,7 +886,8 @@ def run(res, tier, seed):
     raw_corpus = [c for c in cases if c not in modelled]
     cases = modelled
     seeds = [mp.encode(e["ast"], rng) for c in cases for e in c["events"] if e["k"] == "mp"]
-    muts = [alloc_witness()] + raw_corpus + gen_mutation_sequences(rng, nmut, seeds)
+    inj = injection_cases()
+    muts = [c for c, _, _ in inj] + [alloc_witness()] + raw_corpus + gen_mutation_sequences(rng, nmut, seeds)
 
     box = {}
 
@@ -975,6 +1004,18 @@ def run(res, tier, seed):
                       {"kind": "oracle", "case": case_to_json(c), "observed": o, "model_verdict": v, "signature": sig,
                        "how_to_replay": "python3 tools/check.py C04 --replay <this file>"}, suffix="oracle")
         break
+
+    # ---- fault injection: a panic inside a flush must fail that flush only
+    for (c, want_st, want_rows), o in zip(inj, xobs[:len(inj)]):
+        if o["died"]:
+            continue            # reported by the loop below, with the sequence
+        if o["statuses"] != want_st or o["rows"] != want_rows:
+            res.violation("fault injection (%s): a panic inside a flush is not contained as the model says: statuses %s rows %s, expected %s %s"
+                          % (c["family"], o["statuses"], o["rows"], want_st, want_rows),
+                          {"kind": "fault-injection", "case": case_to_json(c), "observed": o,
+                           "how_to_replay": "python3 tools/check.py C04 --replay <this file>"}, suffix="inject")
+            break
+    res.cov["histogram"]["fault_injection_cases"] = len(inj)
 
     # ---- implementation-only mutation stream: any death
     for c, o in zip(muts, xobs):
